@@ -30,6 +30,9 @@ func conform(h *rt.H, c *codec, in []byte) {
 		}
 		h.Assert("no-other-value", ev.Equal(got[:n], want[:n]))
 	case ref.Truncated:
+		// the one-shot Parse knows where the input ends: an unclosed container or an
+		// unterminated string is not the structure of a document
+		h.Assert("truncated-rejected", err != nil)
 		h.Assert("no-other-value", ev.Equal(got[:n], want[:n]))
 	}
 	h.ObserveBool("err", err != nil)
